@@ -272,7 +272,9 @@ def check(run):
     c = sp.Matrix([sp.Symbol(f"k{i}") for i in range(3)])  # centre of mass
     t = sp.Matrix(a)
     I_c = (S2.trace() - m * (c.T * c)[0]) * sp.eye(3) - (S2 - m * c * c.T)
-    props = Namespace("MassProperties", center_mass=np.array(list(c), dtype=object), inertia=np.array(I_c.tolist(), dtype=object), mass=m)
+    # every field of the record is present (mass and volume are different symbols: the density need not be one)
+    props = Namespace("MassProperties", center_mass=np.array(list(c), dtype=object), inertia=np.array(I_c.tolist(), dtype=object), mass=m,
+                      volume=sp.Symbol("vol", positive=True), density=sp.Symbol("rho", positive=True))
     selfobj = Namespace("Trimesh", mass_properties=props)
     itf = interp()
     try:
